@@ -1,5 +1,6 @@
 # C09 (session 4, T41 `helpers`): the remaining object helpers on the routes C09 observes  ->  Gen/AlgoHelpers.lean
 #   swcgeom/core/path.py         Path.get_node, Path.__iter__
+#   swcgeom/core/tree.py         Tree.__iter__
 #   swcgeom/core/branch.py       Branch.detach
 #   swcgeom/core/compartment.py  Compartment.detach   (a compartment of a tree: a Path of two rows)
 #
@@ -37,6 +38,9 @@ _hspec("get_node#Path", lean="path_get_node", file=_PATH, cls="Path", func="get_
 _hspec("__iter__#Path", lean="path_iter", file=_PATH, cls="Path", func="__iter__", params=["self"],
        vars={"self": "Path", "i": "Int"}, ret="List PNode",
        doc="`swcgeom/core/path.py::Path.__iter__` (the generator as the list of the handles it yields, in order)")
+_hspec("__iter__#DictSWC", lean="tree_iter", file=_TREE_PY, cls="Tree", func="__iter__", params=["self"],
+       vars={"self": "DictSWC", "i": "Int"}, ret="List TNode",
+       doc="`swcgeom/core/tree.py::Tree.__iter__` (the generator as the list of the handles it yields, in order)")
 _DETACH_SUBST = {"attact = DictSWC(**{k: self[k] for k in self.keys()}, source=self.attach.source, names=self.names)":
                  "attact = DictSWC({k: self[k] for k in self.keys()}, self.names)"}
 _hspec("detach#Branch", lean="branch_detach", file="swcgeom/core/branch.py", cls="Branch", func="detach", params=["self"],
